@@ -165,16 +165,15 @@ def x_resolved(self, st, r, name):
             rv = _abscall.fold_regex_const(self, r[2], r[1])
             if rv is not KeyError:
                 return rv
-            rv = x_module_table(self, st, r[2], r[1])
-            if rv is not KeyError:
-                return rv
             gk = "@mconst:%s.%s" % (r[1].name, name)
             cached = st.ghost.get(gk)
             if isinstance(cached, Ref) and cached.oid in st.heap:
                 return cached       # a module-level object exists once (a sentinel made by object(), a table built by a call)
-            rv = x_eval_module_expr(self, st, r[2], r[1])
+            rv = x_module_table(self, st, r[2], r[1])
+            if rv is KeyError:
+                rv = x_eval_module_expr(self, st, r[2], r[1])
             if rv is not KeyError:
-                if isinstance(rv, Ref):
+                if isinstance(rv, Ref) and isinstance(r[2], ast.Call):
                     st.ghost[gk] = rv
                 return rv
             return Top("global:" + name)
@@ -520,6 +519,9 @@ def e_GeneratorExp(self, st, node):
     # evaluated eagerly like a list comprehension (sound when it is consumed completely and
     # its element expressions have no side effects the consumer depends on)
     if getattr(self, "eager_genexp", True):
+        lz = _lazy_genexp(self, st, node)
+        if lz is not None:
+            return lz
         outs = []
         for (s, k, v) in e_ListComp(self, st, node):
             if k == "val" and isinstance(v, Ref) and s.obj(v).kind == "list" and s.obj(v).items is not None:
@@ -528,6 +530,40 @@ def e_GeneratorExp(self, st, node):
             outs.append((s, k, v))
         return outs
     return [(st, "val", Top("genexp@%s" % getattr(node, "lineno", 0)))]
+
+
+def _lazy_genexp(self, st, node):
+    """(f(x) for x in <abstract sequence> [if p(x)]) as a lazy map/filter iterator over that sequence, so that the consuming
+    loop sees one element at a time (laziness is observable there).  None for every other shape."""
+    if len(node.generators) != 1 or node.generators[0].is_async or not isinstance(node.generators[0].target, ast.Name):
+        return None
+    gen = node.generators[0]
+    probe = st.fork()
+    outs = self.eval(probe, gen.iter)
+    if len(outs) != 1 or outs[0][1] != "val" or not isinstance(outs[0][2], Ref):
+        return None
+    s, _, src = outs[0]
+    o = s.obj(src)
+    if not (o.kind in ("list", "iterator") and o.items is None and "@seq" in o.fields):
+        return None
+    lams = getattr(node, "_lazy_lambdas", None)
+    if lams is None:
+        def lam(body):
+            n = ast.Lambda(args=ast.arguments(posonlyargs=[], args=[ast.arg(arg=gen.target.id)], kwonlyargs=[], kw_defaults=[],
+                                              defaults=[]), body=body)
+            ast.copy_location(n, node)
+            ast.fix_missing_locations(n)
+            return n
+        test = None
+        if gen.ifs:
+            test = gen.ifs[0] if len(gen.ifs) == 1 else ast.BoolOp(op=ast.And(), values=list(gen.ifs))
+        lams = node._lazy_lambdas = (lam(test) if test is not None else None, lam(node.elt))
+    from . import lazyiter
+    cur = src
+    if lams[0] is not None:
+        cur = lazyiter.lazy(self, s, "filter", self.make_closure(s, lams[0], "<genexpr>"), [cur], node)
+    cur = lazyiter.lazy(self, s, "map", self.make_closure(s, lams[1], "<genexpr>"), [cur], node)
+    return [(s, "val", cur)]
 
 
 def e_SetComp(self, st, node):
@@ -840,6 +876,17 @@ def x_len_eq(self, st, ln, other):
     return Top("eq:len", False)
 
 
+def _set_items(st, v):
+    """Members of a fully known set value (heap set or frozenset constant), else None."""
+    if isinstance(v, frozenset):
+        return list(v)
+    if isinstance(v, Ref) and v.oid in st.heap:
+        o = st.obj(v)
+        if o.kind == "set" and o.items is not None and not any(isinstance(x, Top) for x in o.items):
+            return list(o.items)
+    return None
+
+
 def x_order(self, st, op, a, b):
     def num(x):
         return isinstance(x, (int, float)) and not isinstance(x, bool)
@@ -876,6 +923,11 @@ def x_order(self, st, op, a, b):
         return Top("len>0:" + str(a.base), True)
     if isinstance(a, str) and isinstance(b, str):
         return {ast.Lt: a < b, ast.LtE: a <= b, ast.Gt: a > b, ast.GtE: a >= b}[type(op)]
+    sa_, sb_ = _set_items(st, a), _set_items(st, b)
+    if sa_ is not None and sb_ is not None:
+        sub = _abscall.set_relation(self, st, "issubset", sa_, sb_)
+        sup = _abscall.set_relation(self, st, "issuperset", sa_, sb_)
+        return {ast.Lt: sub and not sup, ast.LtE: sub, ast.Gt: sup and not sub, ast.GtE: sup}[type(op)]
     inp = all((not isinstance(x, Top)) or x.input for x in (a, b)) and any(isinstance(x, Top) for x in (a, b))
     return Top("order", inp)
 
